@@ -19,7 +19,9 @@ Static clauses decided (necessary conditions of C05):
          it) is part of the key of the constructed-SQL cache; every argument of construct_sql_ast is part of that key.
  ALIAS   a list stored in the per-session result cache is shared with every QueryResult that was served it: QueryResult
          never mutates that list in place (reverse/sort/shuffle must work on a copy).
- FRESH   result-cache freshness is clause A of C10 (checked there).
+ FRESH   the per-session result cache is never served stale: the rules A and C of C10 (cache read only after the auto-flush;
+         flush clears the cache after the before_* hooks and before emitting statements; bulk delete clears it) are evaluated
+         here as well, under the ids C05-FRESH-*.
 """
 NOT_DECIDED = "completeness of keys in general (whether a key contains every input the cached value depends on)"
 
@@ -62,6 +64,8 @@ def run(ctx):
     pin_rule(ctx)
     fixed_rule(ctx)
     alias_rule(ctx)
+    from . import C10
+    C10.run(ctx, P='C05-FRESH', cache_only=True)
 
 
 def key_rule(ctx, only=None, prefix='C05-KEY', floor=20):
@@ -374,6 +378,7 @@ def alias_rule(ctx):
 
 
 MUTANTS = [
+    dict(id='C05-f1', file='pony/orm/core.py', fn='SessionCache.flush', old="                    cache.query_results.clear()\n                    modified_m2m = cache._calc_modified_m2m()", new="                    modified_m2m = cache._calc_modified_m2m()", expect='C05-FRESH'),
     dict(id='C05-m1', file='pony/orm/core.py', fn='adapt_sql', old='    adapted_sql_cache[(original_sql, paramstyle)] = result', new='    adapted_sql_cache[(sql, paramstyle)] = result', expect='C05-KEY'),
     dict(id='C05-m2', file='pony/orm/core.py', fn='Query._construct_sql_and_arguments', old='            vartypes=HashableDict(query._translator.vartypes),\n', new='', expect='C05-FIXED.staleness'),
     dict(id='C05-m3', file='pony/orm/core.py', fn='Query._construct_sql_and_arguments', old='            fixed_param_values=HashableDict(translator.fixed_param_values),\n', new='', expect='C05-FIXED.staleness'),
